@@ -26,7 +26,14 @@ func (fx *FnCtx) val(v ssa.Value) Term {
 	case *ssa.Global:
 		fx.errf("outside subset: address of global %s used as value in %s", x.Name(), fx.key)
 		return Term{"0", "Int"}
-	case *ssa.FieldAddr, *ssa.IndexAddr:
+	case *ssa.FieldAddr:
+		// pointer to a nested struct field: its interior address
+		if a, ok := fx.resolveAddr(x).addrOf(); ok {
+			return a
+		}
+		fx.errf("outside subset: interior pointer %s escapes in %s", v.Name(), fx.key)
+		return Term{"0", "Int"}
+	case *ssa.IndexAddr:
 		fx.errf("outside subset: interior pointer %s escapes in %s", v.Name(), fx.key)
 		return Term{"0", "Int"}
 	case *ssa.Alloc:
@@ -148,7 +155,7 @@ func (fx *FnCtx) instr(in ssa.Instruction) {
 			return
 		}
 		ref := fx.define(x, st.next)
-		st.next = app("Int", "+", st.next, Term{"1", "Int"})
+		st.next = app("Int", "+", st.next, Term{allocStep, "Int"})
 		// zero-initialised (cells beyond the allocation frontier are zero)
 		l := &Loc{kind: locPtr, base: ref, rootT: t}
 		fx.assume(eq(st.read(P, l), P.sorts.zero(t)))
@@ -183,7 +190,9 @@ func (fx *FnCtx) instr(in ssa.Instruction) {
 			}
 		}
 		if !isAddrOnlyUse(x) {
-			fx.escapingInterior(x)
+			if _, ok := fx.resolveAddr(x).addrOf(); !ok {
+				fx.escapingInterior(x)
+			}
 		}
 	case *ssa.IndexAddr:
 		switch u := x.X.Type().Underlying().(type) {
@@ -255,7 +264,7 @@ func (fx *FnCtx) instr(in ssa.Instruction) {
 		n, c := fx.val(x.Len), fx.val(x.Cap)
 		fx.oblig("safe.slice", and(app("Bool", "<=", Term{"0", "Int"}, n), app("Bool", "<=", n, c)), "make: 0 <= len <= cap", nil, "")
 		arr := st.next
-		st.next = app("Int", "+", st.next, Term{"1", "Int"})
+		st.next = app("Int", "+", st.next, Term{allocStep, "Int"})
 		et := x.Type().Underlying().(*types.Slice).Elem()
 		s := fx.define(x, app("Slice", "mk_slice", arr, Term{"0", "Int"}, n, c))
 		h := st.getHeap(P, elemComp(et), elemSort(P, et))
@@ -265,7 +274,7 @@ func (fx *FnCtx) instr(in ssa.Instruction) {
 		fx.assume(app("Bool", "<=", c, Term{maxLenS, "Int"}))
 	case *ssa.MakeMap:
 		ref := fx.define(x, st.next)
-		st.next = app("Int", "+", st.next, Term{"1", "Int"})
+		st.next = app("Int", "+", st.next, Term{allocStep, "Int"})
 		mt := x.Type().Underlying().(*types.Map)
 		ks := P.sorts.sortOf(mt.Key())
 		pres := st.mapPresent(P, mt, ref)
@@ -276,7 +285,7 @@ func (fx *FnCtx) instr(in ssa.Instruction) {
 		fx.mapUpdate(x)
 	case *ssa.MakeClosure:
 		ref := fx.define(x, st.next)
-		st.next = app("Int", "+", st.next, Term{"1", "Int"})
+		st.next = app("Int", "+", st.next, Term{allocStep, "Int"})
 		_ = ref
 	case *ssa.TypeAssert:
 		fx.typeAssert(x)
@@ -645,7 +654,7 @@ func (fx *FnCtx) convert(x *ssa.Convert) {
 		}
 		// []byte(s): fresh array with the bytes of s
 		arr := st.next
-		st.next = app("Int", "+", st.next, Term{"1", "Int"})
+		st.next = app("Int", "+", st.next, Term{allocStep, "Int"})
 		n := app("Int", "slen", v)
 		s := fx.define(x, app("Slice", "mk_slice", arr, Term{"0", "Int"}, n, n))
 		P.need["bytes_of_str"] = true
@@ -674,7 +683,7 @@ func (fx *FnCtx) makeInterface(x *ssa.MakeInterface) {
 	}
 	// boxed value
 	ref := st.next
-	st.next = app("Int", "+", st.next, Term{"1", "Int"})
+	st.next = app("Int", "+", st.next, Term{allocStep, "Int"})
 	r := fx.define(x, app("Iface", "mk_iface", id, ref))
 	comp := "B$" + typeKey(t)
 	hs := fmt.Sprintf("(Array Int %s)", v.Sort)
@@ -1251,7 +1260,6 @@ func (fx *FnCtx) appendCall(v *ssa.Call, c *ssa.CallCommon) {
 	comp := elemComp(et)
 	hs := elemSort(P, et)
 	h := st.getHeap(P, comp, hs)
-	one := Term{"1", "Int"}
 	sl := app("Int", "s_len", s)
 	// appended part
 	var addLen Term
@@ -1286,7 +1294,7 @@ func (fx *FnCtx) appendCall(v *ssa.Call, c *ssa.CallCommon) {
 	fits := fx.freshConst("fits", "Bool")
 	fx.assumeDef(eq(fits, app("Bool", "<=", nl, app("Int", "s_cap", s))))
 	fresh := st.next
-	st.next = app("Int", "+", st.next, one)
+	st.next = app("Int", "+", st.next, Term{allocStep, "Int"})
 	fx.assume(eq(app("Int", "s_len", r), nl))
 	fx.assume(app("Bool", "<=", nl, Term{maxLenS, "Int"}))
 	fx.assume(implies(fits, and(eq(app("Int", "s_arr", r), app("Int", "s_arr", s)), eq(app("Int", "s_off", r), app("Int", "s_off", s)), eq(app("Int", "s_cap", r), app("Int", "s_cap", s)))))
